@@ -40,7 +40,7 @@ NoLong == [x \in {} |-> << >>]
 
 \* ---- command queue entries ----
 Entry(msg, cls) == [p |-> msg.p, seq |-> msg.seqN, consec |-> msg.consec, cls |-> cls, st |-> "new",
-                    prog |-> << >>, ret |-> "", bin |-> FALSE, exp |-> [ok |-> FALSE], npv |-> 0, at |-> 0]
+                    prog |-> << >>, ret |-> "", bin |-> FALSE, exp |-> [ok |-> FALSE], npv |-> 0, at |-> 0, unbound |-> FALSE]
 HsCls == [kind |-> "hs", cb |-> "auth", arg |-> << >>, judge |-> FALSE, reply |-> TRUE, fatal |-> FALSE]
 SslReqCls == [kind |-> "sslreq", cb |-> "", arg |-> << >>, judge |-> FALSE, reply |-> FALSE, fatal |-> FALSE]
 
@@ -295,6 +295,7 @@ Step ==
                  /\ viol' = r0.v \cup vdead \cup {V(IF e.name = "auth" THEN "C11" ELSE "C02", l, "callback " \o e.name \o " without a pending command")}
                ELSE LET q == mm.q[i] c == q.cls
                         argv == IF e.name # c.cb THEN {V(IF "auth" \in {e.name, c.cb} THEN "C11" ELSE "C02", l, "callback " \o e.name \o " where " \o c.cb \o " was due (" \o c.kind \o ")")}
+                                                     \cup (IF c.kind = "close" THEN {V("C10", l, "a COM_STMT_CLOSE did not reach on_close")} ELSE {})
                                 ELSE IF e.name = "auth" THEN
                                   LET h == DecHandshakeResponse(q.p, mm.enc) IN
                                   (IF e.has_user # h.hasuser \/ e.user # h.user THEN {V("C11", l, "user name passed to after_authentication differs from the client's")} ELSE {})
@@ -308,12 +309,20 @@ Step ==
                                 THEN {V("C03", l, "a command is dispatched before the previous reply was complete")} ELSE {}
                         r == IF c.kind = "execute" THEN RegFind(mm.reg, c.arg) ELSE 0
                         exp == IF r # 0 THEN ExecDecode(q.p, mm.reg[r].np, mm.reg[r].types, mm.reg[r].long) ELSE [ok |-> FALSE]
-                    IN /\ m' = [mm EXCEPT !.q[i].st = "disp", !.q[i].bin = (c.kind = "execute"), !.q[i].exp = exp, !.q[i].at = l,
+                        unb == r # 0 /\ mm.reg[r].np > 0 /\ mm.reg[r].types = << >> /\ Len(q.p) >= 11 + ((mm.reg[r].np + 7) \div 8)
+                               /\ q.p[11 + ((mm.reg[r].np + 7) \div 8)] = 0
+                    IN /\ m' = [mm EXCEPT !.q[i].st = "disp", !.q[i].bin = (c.kind = "execute"), !.q[i].exp = exp, !.q[i].at = l, !.q[i].unbound = unb,
                                           !.cur = i, !.n.cbs = @ + 1,
                                           !.free = @ \/ (c.kind = "execute" /\ ~exp.ok),
                                           !.reg = IF e.name = "on_close" /\ e.name = c.cb THEN RegDel(@, c.arg) ELSE @,
                                           !.lost = @ \/ argv # {} \/ prev # {}]
                        /\ viol' = r0.v \cup vdead \cup argv \cup prev
+       [] e.e = "pv" /\ m.cur # 0 /\ ~m.lost /\ m.q[m.cur].unbound ->
+            \* the statement has parameters, this execution brings no types and none were ever bound for it
+            \* (e.g. it was re-prepared): nothing can be decoded, so any value handed to the shim comes from stale state
+            /\ m' = [m EXCEPT !.q[m.cur].npv = @ + 1]
+            /\ viol' = viol \cup {V("C10", l, "a parameter was decoded although no types are bound for this (re-)prepared statement"),
+                                   V("C16", l, "a parameter was decoded with types that were never bound for this statement")}
        [] e.e = "pv" ->
             IF m.cur = 0 \/ m.lost \/ m.free THEN UNCHANGED <<m, viol>>
             ELSE LET q == m.q[m.cur] x == q.exp IN
@@ -446,9 +455,13 @@ Step ==
                 \* a connection that was upgraded to TLS and on which nothing failed must be served to the end
                 vtls == IF mm.ctls /\ mm.enc /\ mm.dead = "" /\ ~mm.fault /\ ~mm.free /\ res # "ok"
                         THEN {V("C18", l, "connection not served after the TLS upgrade (result " \o res \o ")")} ELSE {}
+                vmissed == IF res = "ok" /\ ~mm.lost /\ ~mm.free /\ mm.dead = "" /\ ~mm.quit /\ FirstNew(mm.q) # 0 /\ mm.q[FirstNew(mm.q)].cls.cb # ""
+                           THEN {V("C02", l, "a command never reached its callback " \o mm.q[FirstNew(mm.q)].cls.cb)}
+                                \cup (IF mm.q[FirstNew(mm.q)].cls.kind = "close" THEN {V("C10", l, "a COM_STMT_CLOSE never reached on_close")} ELSE {})
+                           ELSE {}
                 vblock == IF mm.blocked /\ ~mm.lost THEN {V("C12", l, "lock-step client blocked: the server waited for input while the client was waiting for a reply")} ELSE {}
             IN /\ m' = [mm EXCEPT !.done = TRUE]
-               /\ viol' = r0.v \cup vres \cup vsync \cup vblock \cup vpanic \cup vtls
+               /\ viol' = r0.v \cup vres \cup vsync \cup vblock \cup vpanic \cup vtls \cup vmissed
        [] OTHER -> UNCHANGED <<m, viol>>
 
 Spec == Init /\ [][Step]_vars
